@@ -358,5 +358,6 @@ func (f *Flow) finLine(done bool) {
 	if notes == nil {
 		notes = []string{}
 	}
-	f.emit(abs{"e": "fin", "done": done, "produced": f.produced, "n": f.n, "dconf": dconf, "delivs": delivs, "notes": notes})
+	// free: a free-running flow that did not finish inside its wall-clock limit is inconclusive, not a verdict
+	f.emit(abs{"e": "fin", "done": done, "free": f.free, "produced": f.produced, "n": f.n, "dconf": dconf, "delivs": delivs, "notes": notes})
 }
